@@ -30,6 +30,8 @@ type c20Params struct {
 	// Nest > 0: the components are grouped into nested CombineScenarios calls (shape drawn from this seed);
 	// nesting is flattening, so the expected event log is the same
 	Nest uint64 `json:"nest,omitempty"`
+	// Quiet: verbose run with a logger that shows nothing
+	Quiet bool `json:"quiet,omitempty"`
 }
 
 // c20Nest combines the components through nested CombineScenarios calls.
@@ -90,6 +92,7 @@ func init() {
 				if i%4 == 1 && nc >= 2 {
 					p.Nest = 1 + r.Uint64()>>1
 				}
+				p.Quiet = i%5 == 2
 				p.Reps = 1
 				if i%3 == 0 {
 					p.Reps = 2 + r.IntN(2)
@@ -153,6 +156,10 @@ func c20Run(c *core.Case, o *core.Outcome) {
 	}
 	spec.MaxIterations = uint64(p.N)
 	spec.IgnoreDropped = true
+	if p.Quiet {
+		// the handles log into a logger that is disabled for every level
+		spec.Verbose, spec.QuietLogger = true, true
+	}
 	combined := f1.CombineScenarios(comps...)
 	if p.Nest > 0 {
 		var depth int
@@ -301,6 +308,13 @@ func c20Once(c *core.Case, o *core.Outcome, p *c20Params, spec engine.Spec, l *e
 		o.Violate(key, "result reports %d successful / %d failed iterations, component behaviours give %d / %d (%s)", su, fa, wantPass, wantFail, desc)
 		return
 	}
+	// the exported metrics report the same outcomes
+	if fams, gerr := engine.Gather(r.Registry); gerr == nil {
+		if ic := engine.IterationCounts(fams); ic["success"] != wantPass || ic["fail"] != wantFail {
+			o.Violate(key, "metrics carry success=%d fail=%d for the iterations, component behaviours give %d / %d (%s)", ic["success"], ic["fail"], wantPass, wantFail, desc)
+			return
+		}
+	}
 	o.AddObs("iterations_checked", int64(len(its)))
 	o.AddObs("iterations_cut_by_stopping_component", int64(cutCount))
 	faulty := 0
@@ -310,7 +324,7 @@ func c20Once(c *core.Case, o *core.Outcome, p *c20Params, spec engine.Spec, l *e
 		}
 	}
 	if len(p.Comps) >= 2 && faulty > 0 {
-		o.Sig("n=%d:faulty=%d:cut=%v:conc=%d:mode=%s:nested=%v", len(p.Comps), faulty, cutCount > 0, p.Conc, p.Mode, p.Nest > 0)
+		o.Sig("n=%d:faulty=%d:cut=%v:conc=%d:mode=%s:nested=%v:quiet=%v", len(p.Comps), faulty, cutCount > 0, p.Conc, p.Mode, p.Nest > 0, p.Quiet)
 	}
 	o.Sample = map[string]any{"case": desc, "iterations": len(its), "cut": cutCount, "failed": wantFail}
 }
